@@ -103,6 +103,14 @@ impl FindMembersContext {
         }
     }
 
+    fn without_substitutor(&self) -> Self {
+        Self {
+            file_id: self.file_id,
+            infer_guard: self.infer_guard.clone(),
+            substitutor: None,
+        }
+    }
+
     fn fork_infer(&self) -> Self {
         Self {
             file_id: self.file_id,
@@ -566,8 +574,15 @@ fn find_generic_members(
     let substitutor = TypeSubstitutor::from_type_array(instantiated_params);
     let type_decl = db.get_type_index().get_type_decl(&base_ref_id)?;
     let ctx_with_substitutor = ctx.with_substitutor(substitutor.clone());
+    if type_decl.is_alias() {
+        // A generic alias may expand to itself (`---@alias A<T> T | A<T[]>`); the expansion
+        // below never passes through `find_custom_type_members`, so guard it here.
+        ctx.infer_guard().check(base_ref_id).ok()?;
+    }
     if let Some(origin) = type_decl.get_alias_origin(db, Some(&substitutor)) {
-        return find_members_guard(db, &origin, &ctx_with_substitutor, filter);
+        // `origin` is already instantiated with `substitutor`; applying it a second time
+        // doubles self-referential arguments (`T := T[]`) at every level of an alias chain.
+        return find_members_guard(db, &origin, &ctx.without_substitutor(), filter);
     }
 
     find_members_guard(
